@@ -32,6 +32,7 @@ func vcForallBool(f func(bool) bool) bool  { return true }
 
 // vcMod / vcModElems name a location (all elements of a backing array) in a
 // `modifies` clause.
+func vcModMap(m interface{})          {}
 func vcMod(p interface{})             {}
 func vcModElems(n int, p interface{}) {}
 
@@ -578,7 +579,8 @@ func sstWF(s *sst) bool {
 
 // lstWF: one offset per import, the first import starts at 0, the system table first.
 func lstWF(t *lst) bool {
-	return len(t.imports) >= 1 && len(t.offsets) == len(t.imports) && t.offsets[0] == 0
+	return len(t.imports) >= 1 && len(t.offsets) == len(t.imports) && t.offsets[0] == 0 &&
+		vcForallInt(func(i int) bool { return !(0 <= i && i < len(t.imports)) || t.imports[i] != nil })
 }
 
 // ---------------------------------------------------------------------------
